@@ -78,6 +78,67 @@ def cell_recipes():
     ]
 
 
+class VecEnv:
+    """fresh vector / matrix variables with fixed names (the constant model is rebuilt over the same names)"""
+
+    def __init__(self):
+        from optyx import VectorVariable, MatrixVariable, Variable
+
+        self.x = VectorVariable("x", 3)
+        self.y = VectorVariable("y", 3)
+        self.X = MatrixVariable("X", 2, 2)
+        self.a = Variable("a")
+
+
+def vector_shapes():
+    """vector reductions a Parameter can scale / shift / divide: (tag, E -> scalar expression)"""
+    from optyx.core import vectors as V
+    from optyx.core import matrices as M
+
+    c3 = lambda: np.array([2.0, -1.0, 0.5])  # noqa: E731
+    Q3 = lambda: np.array([[2.0, 0.5, 0.0], [0.5, 1.0, -1.0], [0.0, -1.0, 3.0]])  # noqa: E731
+    A3 = lambda: np.array([[1.0, 2.0, -1.0], [0.5, 0.0, 3.0]])  # noqa: E731
+    return [
+        ("sum", lambda E: E.x.sum()),
+        ("lincomb", lambda E: c3() @ E.x),
+        ("lincomb-expr", lambda E: V.LinearCombination(c3(), E.x + 1.0)),
+        ("dot-self", lambda E: E.x.dot(E.x)),
+        ("dot-xy", lambda E: E.x.dot(E.y)),
+        ("power-sum", lambda E: V.VectorPowerSum(E.x, 2)),
+        ("power-sum3", lambda E: V.VectorPowerSum(E.x, 3)),
+        ("unary-sum", lambda E: V.VectorUnarySum(E.x, "sin")),
+        ("quadform", lambda E: M.QuadraticForm(E.x, Q3())),
+        ("l2", lambda E: V.L2Norm(E.x)),
+        ("l1", lambda E: V.L1Norm(E.x)),
+        ("matvec-row", lambda E: (A3() @ E.x)[0]),
+        ("expr-sum", lambda E: (E.x * E.y).sum()),
+        ("matrix-sum", lambda E: E.X.sum()),
+        ("frobenius", lambda E: M.FrobeniusNorm(E.X)),
+    ]
+
+
+def placements():
+    """where the Parameter sits relative to the reduction R (at or near the root): (tag, (P, Q, R, E) -> expression)"""
+    return [
+        ("P*R", lambda P, Q, R, E: P * R),
+        ("R*P", lambda P, Q, R, E: R * P),
+        ("R+P", lambda P, Q, R, E: R + P),
+        ("P+R", lambda P, Q, R, E: P + R),
+        ("R-P", lambda P, Q, R, E: R - P),
+        ("P-R", lambda P, Q, R, E: P - R),
+        ("R/P", lambda P, Q, R, E: R / P),
+        ("P*R-10", lambda P, Q, R, E: P * R - 10.0),
+        ("(R*P)+1", lambda P, Q, R, E: (R * P) + 1.0),
+        ("2*(P*R)+3", lambda P, Q, R, E: 2.0 * (P * R) + 3.0),
+        ("-(P*R)", lambda P, Q, R, E: -(P * R)),
+        ("P*R+Q*a", lambda P, Q, R, E: P * R + Q * E.a),
+        ("(P*R)*Q", lambda P, Q, R, E: (P * R) * Q),
+        ("P*(R+1)", lambda P, Q, R, E: P * (R + 1.0)),
+        ("(R-Q)*P", lambda P, Q, R, E: (R - Q) * P),
+        ("P*R+a*a", lambda P, Q, R, E: P * R + E.a * E.a),
+    ]
+
+
 class Case:
     """a model expression that can be rebuilt with Parameters or with Constants holding given values"""
 
@@ -91,6 +152,13 @@ class Case:
         from optyx import Variable, Parameter
         from optyx.core.expressions import Constant
 
+        if self.kind == "vec":
+            E = VecEnv()
+            shape, place = self.mk
+            if values is None:
+                P, Q = Parameter("p", self.init[0]), Parameter("q", self.init[1])
+                return place(P, Q, shape(E), E), [P, Q]
+            return place(Constant(values[0]), Constant(values[1]), shape(E), E), None
         if self.kind == "cell":
             x, y = Variable("a"), Variable("b")
             if values is None:
@@ -123,10 +191,10 @@ class Artefacts:
 
     def __init__(self, e, vs):
         self.e, self.vs = e, vs
-        self.fn = self.jac = self.hess = None
+        self.fn = self.jac = self.hess = self.grad = None
 
     def observe(self, kind, env):
-        from optyx.core.compiler import compile_expression
+        from optyx.core.compiler import compile_expression, compile_gradient
         from optyx.core.autodiff import compile_jacobian, compile_hessian
 
         x = np.array([env[v.name] for v in self.vs], dtype=float)
@@ -142,6 +210,10 @@ class Artefacts:
                 if self.jac is None:
                     self.jac = compile_jacobian([self.e], self.vs)
                 return self.jac.__name__, [float(t) for t in np.asarray(self.jac(x), dtype=float).ravel()]
+            if kind == "grad":
+                if self.grad is None:
+                    self.grad = compile_gradient(self.e, self.vs)
+                return self.grad.__name__, [float(t) for t in np.asarray(self.grad(x), dtype=float).ravel()]
             if kind == "hess":
                 if self.hess is None:
                     self.hess = compile_hessian(self.e, self.vs)
@@ -203,7 +275,7 @@ def exponent_base_zero(e, env):
 NOT01 = [v for v in PV if v not in (0.0, 1.0)]
 
 
-def rand_history(rng, vs, n, pattern="random"):
+def rand_history(rng, vs, n, pattern="random", with_grad=False):
     """`random`: free mix.  `derive-first`: a derivative is compiled and called while the parameters still hold their
     initial values (0.0 / 1.0 in many cases), then both are set to other values, then everything is observed again.
     `to01-then-derive`: parameters are first set to 0 / 1, a derivative is compiled, then they move away."""
@@ -225,6 +297,14 @@ def rand_history(rng, vs, n, pattern="random"):
             ops.append((kind, pt()))
     # make sure something is observed after the last set
     ops.append((rng.choice(["jac", "fn", "hess"]), pt()))
+    if with_grad:
+        # compile_gradient is a third derivative artefact: observe it wherever the Jacobian is observed
+        out = []
+        for o in ops:
+            out.append(o)
+            if o[0] == "jac":
+                out.append(("grad", o[1]))
+        ops = out
     return ops
 
 
@@ -232,7 +312,7 @@ def run_expression_case(case, rng, rep, lean_ok, n_ops):
     """returns (lean line, expected per-op list, meta) or None; appends oracle failures to rep"""
     e, params = case.build(None)
     vs = vars_of(e)
-    ops = rand_history(rng, vs, n_ops, case.pattern)
+    ops = rand_history(rng, vs, n_ops, case.pattern, with_grad=not lean_ok)
     art = Artefacts(e, vs)
     ids = Ids()
     line = None
@@ -296,7 +376,7 @@ def run_expression_case(case, rng, rep, lean_ok, n_ops):
         if sets_seen:
             rep.nontrivial.add((case.tag, case.seed, len(expected)))
         if len(vals) != len(cvals) or not all(close(a, b, 1e-7, 1e-9) for a, b in zip(vals, cvals)):
-            if kind in ("jac", "hess") and exponent_base_zero(e, env):
+            if kind in ("jac", "hess", "grad") and exponent_base_zero(e, env):
                 rep.skipped["parameter-exponent-at-base-0"] = rep.skipped.get("parameter-exponent-at-base-0", 0) + 1
                 continue
             if not well_conditioned(lambda pe: Artefacts(ce, cvs).observe(kind, pe)[1], env, cvals):
@@ -365,12 +445,25 @@ def problem_recipes():
         ("exponent", lambda P, Q, x, y: ((x + 1.0) ** (P * P + 2.0) + y * y, [x + y >= Q * 0.0 + 0.5], "min")),
         ("maximize", lambda P, Q, x, y: (P * x - x * x + Q * y - y * y, [x + y <= 3.0], "max")),
         ("linear-looking", lambda P, Q, x, y: ((P * P + 1.0) * x + (Q * Q + 1.0) * y, [x + y >= 1.0, x - y <= 2.0], "min")),
+        # a Parameter directly scaling / shifting a vector reduction, in the objective and in a constraint (v: 3-vector in
+        # [-3, 3]); strictly convex, so a sign flip of the parameter moves the unique minimiser
+        ("vec-rate", lambda P, Q, x, y, v: (v.dot(v) - P * v.sum() + (x - 1.0) ** 2 + y * y, [v.sum() <= 4.0], "min")),
+        ("vec-lincomb", lambda P, Q, x, y, v: ((np.array([1.0, -2.0, 0.5]) @ v) * P + 1.0 + v.dot(v) + x * x + y * y, [], "min")),
+        ("vec-constraint", lambda P, Q, x, y, v: (v.dot(v) + x * x + (y - 1.0) ** 2,
+                                                  [P * v.sum() - 1.0 >= 0.0, (np.array([1.0, 1.0, -1.0]) @ v) * Q + 2.0 >= 0.0], "min")),
+        ("vec-max", lambda P, Q, x, y, v: (Q * v.sum() - v.dot(v) - x * x - y * y + P, [v.sum() - Q <= 5.0], "max")),
     ]
+
+
+STRICTLY_CONVEX = {"objective-shift", "coefficient", "hessian-entry", "maximize", "rhs", "vec-rate", "vec-lincomb",
+                   "vec-constraint", "vec-max"}
 
 
 def build_problem(mk, values, init=(1.5, -0.5)):
     from optyx import Variable, Parameter, Problem
     from optyx.core.expressions import Constant
+
+    from optyx import VectorVariable
 
     x, y = Variable("a", lb=0.0, ub=4.0), Variable("b", lb=-1.0, ub=5.0)
     if values is None:
@@ -379,7 +472,10 @@ def build_problem(mk, values, init=(1.5, -0.5)):
     else:
         P, Q = Constant(values[0]), Constant(values[1])
         params = None
-    obj, cons, sense = mk(P, Q, x, y)
+    if mk.__code__.co_argcount == 5:
+        obj, cons, sense = mk(P, Q, x, y, VectorVariable("v", 3, lb=-3.0, ub=3.0))
+    else:
+        obj, cons, sense = mk(P, Q, x, y)
     prob = Problem()
     (prob.maximize if sense == "max" else prob.minimize)(obj)
     if cons:
@@ -425,6 +521,10 @@ def run_problem_histories(rng, rep, n_hist, n_ops):
             forced_set = k in (1, 2)
             if k != 0 and (forced_set or rng.random() < 0.45):
                 i, v = (k - 1, rng.choice(NOT01)) if forced_set else (rng.randint(0, 1), rng.choice(PV))
+                if forced_set or rng.random() < 0.5:
+                    # prefer sign flips: the solution must move, a frozen derivative cannot follow
+                    cur_v = float(params[i].value)
+                    v = -abs(v) if cur_v > 0 else abs(v)
                 params[i].set(v)
                 hist.append(["set", i, v])
                 did_set = True
@@ -486,7 +586,7 @@ def run_problem_histories(rng, rep, n_hist, n_ops):
                 elif s1[0] == s2[0] == "OPTIMAL":
                     tol = 2e-3 if method != "SLSQP" else 1e-4
                     dv = max([abs(s1[1][k] - s2[1].get(k, float("nan"))) for k in s1[1]] or [0.0])
-                    if tag == "linear-looking":
+                    if tag not in STRICTLY_CONVEX:
                         dv = 0.0  # linear objective: the minimiser need not be unique, only the optimal value is compared
                     do = abs((s1[2] or 0.0) - (s2[2] or 0.0))
                     if not (dv <= tol * 10 and do <= tol * (1 + abs(s2[2] or 0.0))):
@@ -536,6 +636,17 @@ def run(ctx) -> core.Report:
             cases.append(Case(tag, "cell", mk=mk, pattern="to01-then-derive"))
             cases.append(Case(tag, "cell", mk=mk, init=rng.choice(inits), pattern="random"))
 
+    # Parameter × vector-node shapes at / near the root (the `jacobian_row` shortcuts of the vector classes and of BinaryOp)
+    k = 0
+    for stag, shape in vector_shapes():
+        for ptag, place in placements():
+            k += 1
+            reps = [("derive-first", inits[k % len(inits)])]
+            if thorough:
+                reps += [("to01-then-derive", (1.5, -0.5)), ("random", inits[(k + 2) % len(inits)])]
+            for pat, init in reps:
+                cases.append(Case(f"vec:{stag}:{ptag}", "vec", mk=(shape, place), init=init, pattern=pat))
+
     def rinit():
         return (rng.choice(PV), rng.choice(PV)) if rng.random() < 0.5 else rng.choice(inits)
 
@@ -552,11 +663,12 @@ def run(ctx) -> core.Report:
     metas = []
     try:
         for c in cases:
-            r = run_expression_case(c, rng, rep, lean_ok=(c.tag != "rand-vector"), n_ops=rng.randint(4, n_ops))
+            r = run_expression_case(c, rng, rep, lean_ok=(c.tag != "rand-vector" and c.kind != "vec"),
+                                    n_ops=rng.randint(4, n_ops) if c.kind != "vec" else 2)
             if r is not None and r[0] is not None:
                 metas.append(r)
         degree_facts(rng, rep, 400 if thorough else 120)
-        run_problem_histories(rng, rep, 140 if thorough else 35, n_ops)
+        run_problem_histories(rng, rep, 220 if thorough else 55, n_ops)
     finally:
         _c13.clear_lru()
     outs = run_lean_unit([m[0] for m in metas])
@@ -605,7 +717,10 @@ def replay(payload) -> bool:
                     ok = False
         return ok
     init = tuple(f.get("init", (1.5, -0.5)))
-    if f.get("kind") == "cell":
+    if f.get("kind") == "vec":
+        _, stag, ptag = f["case"].split(":", 2)
+        case = Case(f["case"], "vec", mk=(dict(vector_shapes())[stag], dict(placements())[ptag]), init=init)
+    elif f.get("kind") == "cell":
         case = Case(f["case"], "cell", mk=dict(cell_recipes())[f["case"]], init=init)
     else:
         case = Case(f["case"], "rand", seed=f["seed"], depth=f.get("depth", 3), vector_nodes=f.get("vector_nodes", False),
